@@ -24,6 +24,9 @@ const (
 	fkInts                // list Z (slice of a non-byte integer type ity)
 	fkErr                 // bool: true = non-nil error
 	fkNil                 // the untyped nil
+	fkStack               // list bytes: a [][]byte, in Go order (funcs_interp.go)
+	fkNum                 // Z: a *scriptNumber (funcs_interp.go)
+	fkCfg                 // bool: the interface config, true = afterGenesisConfig (funcs_interp.go)
 )
 
 type fnType struct {
@@ -41,6 +44,12 @@ func (ty fnType) coq() string {
 		return "bytes"
 	case fkInts:
 		return "list Z"
+	case fkStack:
+		return "list bytes"
+	case fkNum:
+		return "Z"
+	case fkCfg:
+		return "bool"
 	}
 	return "?"
 }
@@ -48,21 +57,36 @@ func (ty fnType) coq() string {
 type fnVar struct {
 	name  string
 	ty    fnType
-	fresh bool // a byte slice allocated in this function that no other variable can alias
+	fresh bool          // a byte slice allocated in this function that no other variable can alias
+	alias []interface{} // the variables (keys of fnTr.vars) whose storage this slice variable may share
+	stale bool          // a [][]byte whose storage has since been overwritten through another variable (append in place)
+	cells []int         // a *scriptNumber: the number objects the variable may point to (funcs_interp.go)
+	guard interface{}   // a *scriptNumber result: the error variable that says whether it is nil (funcs_interp.go)
+	okNum bool          // ... and that error has been tested to be nil on this path
 }
 
 type fnVal struct {
 	s     string
 	pure  bool
 	ty    fnType
-	alias []types.Object // local slice variables whose storage the value may share
-	fresh bool           // value is freshly allocated storage (make, literal, append onto such)
+	alias []interface{} // slice variables (keys of fnTr.vars) whose storage the value may share
+	fresh bool          // value is freshly allocated storage (make, literal, append onto such)
+	cells []int         // a *scriptNumber value: the number objects it may point to
 }
 
 type fnTr struct {
 	pkg     *fnPkg
 	spec    fnSpec
 	vars    map[interface{}]*fnVar // types.Object (locals, parameters) or string (declared field paths)
+	ld      *fnLoader
+	state   []string               // the declared field paths the function may write, in order (spec.State)
+	dead    map[int]bool           // *scriptNumber objects that were changed in place: a variable still pointing to one is unusable
+	ncell   int
+	noRes   bool                   // the Go function has no results
+	erased  map[string]bool        // the debugger callbacks of the stack whose calls were left out
+	args    []fnArg                // the parameters of the printed definition, in order
+	rootIdx map[string]int         // struct / pointer parameters: name -> position (-1 = receiver)
+	errNil  map[interface{}]bool   // error variables known to be nil on the current path
 	names   map[string]int
 	objs    map[types.Object]string // the Coq name of a Go variable, fixed at its first translation
 	tmp     int
@@ -115,6 +139,9 @@ func fnClassify(ty types.Type) (fnType, bool) {
 	if ty.String() == "error" {
 		return fnType{k: fkErr}, true
 	}
+	if k, ok := fnClassifyInterp(ty); ok {
+		return k, true
+	}
 	switch u := ty.Underlying().(type) {
 	case *types.Basic:
 		if u.Kind() == types.Bool || u.Kind() == types.UntypedBool {
@@ -132,6 +159,9 @@ func fnClassify(ty types.Type) (fnType, bool) {
 				return fnType{k: fkBytes, ity: "U8"}, true
 			}
 			return fnType{k: fkInts, ity: e.ity}, true
+		}
+		if e, ok := fnClassify(u.Elem()); ok && e.k == fkBytes {
+			return fnType{k: fkStack}, true
 		}
 	}
 	return fnType{}, false
@@ -225,8 +255,10 @@ func (t *fnTr) coerce(n ast.Node, v fnVal, want fnType) fnVal {
 		switch want.k {
 		case fkErr:
 			return fnVal{s: "false", pure: true, ty: want}
-		case fkBytes, fkInts:
+		case fkBytes, fkInts, fkStack:
 			return fnVal{s: "[]", pure: true, ty: want}
+		case fkNum:
+			return fnVal{s: "sn_nil", pure: true, ty: want, cells: []int{t.newCell()}}
 		}
 		t.fail(n, "nil used as %s", want.coq())
 	}
@@ -259,11 +291,18 @@ func (t *fnTr) fieldPath(e ast.Expr) (string, bool) {
 	return "", false
 }
 
-func (t *fnTr) varVal(n ast.Node, v *fnVar, obj types.Object) fnVal {
+func (t *fnTr) varVal(n ast.Node, v *fnVar, key interface{}) fnVal {
 	r := fnVal{s: v.name, pure: true, ty: v.ty}
-	if obj != nil && (v.ty.k == fkBytes || v.ty.k == fkInts) {
-		r.alias = []types.Object{obj}
+	if v.stale {
+		t.fail(n, "%s is read after the storage it shares was overwritten by an append through another variable", v.name)
+	}
+	if key != nil && (v.ty.k == fkBytes || v.ty.k == fkInts || v.ty.k == fkStack) {
+		r.alias = []interface{}{key}
 		r.fresh = v.fresh
+	}
+	if v.ty.k == fkNum {
+		t.readNum(n, v)
+		r.cells = v.cells
 	}
 	return r
 }
@@ -311,6 +350,9 @@ func (t *fnTr) expr(e ast.Expr) fnVal {
 		}
 		t.fail(e, "unsupported selector or dereference")
 	case *ast.UnaryExpr:
+		if x.Op == token.AND {
+			return t.numLiteral(x)
+		}
 		a := t.expr(x.X)
 		ty := t.typeOf(e)
 		switch x.Op {
@@ -363,6 +405,10 @@ func (t *fnTr) expr(e ast.Expr) fnVal {
 			return t.seq([]fnVal{a, i}, func(ts []string) fnVal {
 				return fnVal{s: "go_index " + ts[0] + " " + ts[1], ty: fnType{k: fkInt, ity: a.ty.ity}}
 			})
+		case fkStack: // an item of a stack is a value; it is never "allocated here", so it cannot be written in place
+			return t.seq([]fnVal{a, i}, func(ts []string) fnVal {
+				return fnVal{s: "go_index " + ts[0] + " " + ts[1], ty: fnType{k: fkBytes, ity: "U8"}}
+			})
 		}
 		t.fail(e, "index of a non-slice")
 	case *ast.SliceExpr:
@@ -370,7 +416,7 @@ func (t *fnTr) expr(e ast.Expr) fnVal {
 			t.fail(e, "three-index slice")
 		}
 		a := t.expr(x.X)
-		if a.ty.k != fkBytes && a.ty.k != fkInts {
+		if a.ty.k != fkBytes && a.ty.k != fkInts && a.ty.k != fkStack {
 			t.fail(e, "slice of a non-slice")
 		}
 		args := []fnVal{a}
@@ -596,6 +642,9 @@ func (t *fnTr) call(c *ast.CallExpr) fnVal {
 			return t.builtin(c, id.Name)
 		}
 	}
+	if v, ok := t.interpCall(c); ok {
+		return v
+	}
 	if bits, ok := t.leCall(c, "Uint"); ok && len(c.Args) == 1 {
 		a := t.expr(c.Args[0])
 		if a.ty.k != fkBytes {
@@ -615,6 +664,9 @@ func (t *fnTr) call(c *ast.CallExpr) fnVal {
 			if tv, ok := t.pkg.info.Types[a]; ok && tv.Value != nil {
 				continue
 			}
+			if t.isNameCall(a) {
+				continue
+			}
 			if v := t.expr(a); !v.pure {
 				eff = append(eff, v)
 			}
@@ -629,7 +681,7 @@ func (t *fnTr) builtin(c *ast.CallExpr, name string) fnVal {
 	switch name {
 	case "len":
 		a := t.expr(c.Args[0])
-		if a.ty.k != fkBytes && a.ty.k != fkInts {
+		if a.ty.k != fkBytes && a.ty.k != fkInts && a.ty.k != fkStack {
 			t.fail(c, "len of a non-slice")
 		}
 		return t.seq([]fnVal{a}, func(ts []string) fnVal {
@@ -637,6 +689,15 @@ func (t *fnTr) builtin(c *ast.CallExpr, name string) fnVal {
 		})
 	case "make":
 		ty := t.typeOf(c)
+		if ty.k == fkStack && len(c.Args) == 2 {
+			n := t.expr(c.Args[1])
+			if n.ty.k != fkInt {
+				t.fail(c, "non-integer size")
+			}
+			r := t.seq([]fnVal{n}, func(ts []string) fnVal { return fnVal{s: "go_make_stack " + ts[0], ty: ty} })
+			r.fresh = true
+			return r
+		}
 		if ty.k != fkBytes || len(c.Args) < 2 || len(c.Args) > 3 {
 			t.fail(c, "make of something other than []byte")
 		}
@@ -658,6 +719,9 @@ func (t *fnTr) builtin(c *ast.CallExpr, name string) fnVal {
 	case "append":
 		a := t.expr(c.Args[0])
 		a = t.coerce(c, a, t.typeOf(c))
+		if a.ty.k == fkStack {
+			return t.appendStack(c, a)
+		}
 		if a.ty.k != fkBytes {
 			t.fail(c, "append to something other than []byte")
 		}
